@@ -90,6 +90,10 @@ impl<Octets> UncertainName<Octets> {
         }
         // A relative name must leave room for the root label.
         let relative_too_long = slice.len() > Name::MAX_LEN - 1;
+        if slice.is_empty() {
+            // The empty relative name.
+            return Ok(false);
+        }
         loop {
             let (label, tail) = Label::split_from(slice)?;
             if label.is_root() {
